@@ -203,50 +203,53 @@ def main(argv):
     bscale = min(1.0, target / rounds) if rounds else 1.0
     env["VT_BUDGET_SCALE"] = repr(bscale)
     parts = [p for p in parts if p.kind == "enumerate"] + [p for p in parts if p.kind != "enumerate"]
-    jobs = []
     tmpd = tempfile.mkdtemp(prefix="vt-run-")
-    for part in parts:
-        n = part.shards[tier]
-        for i in range(n):
-            out = os.path.join(tmpd, f"{part.name}-{i}.json")
-            cmd = [sys.executable, "-m", "vt.shard", check_id, part.name, str(i), str(n), tier, str(seed), out]
-            jobs.append({"part": part, "shard": i, "cmd": cmd, "out": out})
 
-    running = []
-    pending = list(jobs)
-    results = collections.defaultdict(list)
-    hard_limit = {}
-    while pending or running:
-        while pending and len(running) < NCPU:
-            j = pending.pop(0)
-            j["log"] = open(j["out"] + ".log", "w")
-            j["proc"] = subprocess.Popen(j["cmd"], cwd=HERE, env=env, stdout=j["log"], stderr=subprocess.STDOUT)
-            j["t0"] = time.time()
-            # hard wall-clock cap: search budget + shrink window + slack; a shard
-            # that exceeds it is killed and reported as a harness problem
-            j["limit"] = j["part"].budget_s[tier] * bscale * 2 + 600
-            running.append(j)
-        time.sleep(0.05)
-        for j in list(running):
-            rc = j["proc"].poll()
-            if rc is None:
-                if time.time() - j["t0"] > j["limit"]:
-                    j["proc"].kill()
-                    j["proc"].wait()
-                    running.remove(j)
-                    j["log"].close()
-                    harness_errors.append(f"shard {j['part'].name}/{j['shard']} exceeded hard time limit and was killed")
-                continue
-            running.remove(j)
-            j["log"].close()
-            if os.path.exists(j["out"]):
-                try:
-                    results[j["part"].name].append(json.load(open(j["out"])))
-                except Exception as e:
-                    harness_errors.append(f"shard {j['part'].name}/{j['shard']}: unreadable result: {e}")
-            else:
-                log = open(j["out"] + ".log").read()[-3000:]
-                harness_errors.append(f"shard {j['part'].name}/{j['shard']} died rc={rc}: {log}")
+    def run_parts(run_these, env_, tag):
+        jobs = []
+        for part in run_these:
+            n = part.shards[tier]
+            for i in range(n):
+                out = os.path.join(tmpd, f"{tag}{part.name}-{i}.json")
+                cmd = [sys.executable, "-m", "vt.shard", check_id, part.name, str(i), str(n), tier, str(seed), out]
+                jobs.append({"part": part, "shard": i, "cmd": cmd, "out": out})
+        running = []
+        pending = list(jobs)
+        res = collections.defaultdict(list)
+        while pending or running:
+            while pending and len(running) < NCPU:
+                j = pending.pop(0)
+                j["log"] = open(j["out"] + ".log", "w")
+                j["proc"] = subprocess.Popen(j["cmd"], cwd=HERE, env=env_, stdout=j["log"], stderr=subprocess.STDOUT)
+                j["t0"] = time.time()
+                # hard wall-clock cap: search budget + shrink window + slack; a shard
+                # that exceeds it is killed and reported as a harness problem
+                j["limit"] = j["part"].budget_s[tier] * bscale * 2 + 600
+                running.append(j)
+            time.sleep(0.05)
+            for j in list(running):
+                rc = j["proc"].poll()
+                if rc is None:
+                    if time.time() - j["t0"] > j["limit"]:
+                        j["proc"].kill()
+                        j["proc"].wait()
+                        running.remove(j)
+                        j["log"].close()
+                        harness_errors.append(f"shard {j['part'].name}/{j['shard']} exceeded hard time limit and was killed")
+                    continue
+                running.remove(j)
+                j["log"].close()
+                if os.path.exists(j["out"]):
+                    try:
+                        res[j["part"].name].append(json.load(open(j["out"])))
+                    except Exception as e:
+                        harness_errors.append(f"shard {j['part'].name}/{j['shard']}: unreadable result: {e}")
+                else:
+                    log = open(j["out"] + ".log").read()[-3000:]
+                    harness_errors.append(f"shard {j['part'].name}/{j['shard']} died rc={rc}: {log}")
+        return res
+
+    results = run_parts(parts, env, "")
 
     # ---- 3. merge ---------------------------------------------------------------
     cov_parts = {}
@@ -299,6 +302,7 @@ def main(argv):
     # Every generated failure is re-executed from its replay file in a fresh
     # process before it is reported.
     reported = []
+    not_reproduced = []
     seen_buckets = set()
     gen_fails = [(p, f) for (p, f) in violations if p != "corpus"]
     gen_fails.sort(key=lambda pf: len(canonical(pf[1]["case"])))
@@ -316,9 +320,36 @@ def main(argv):
             reported.append(path)
             n_violation_lines += 1
         elif st == "pass":
-            harness_errors.append(f"failure in part {pname} did not reproduce from {path} (non-deterministic harness?): {f.get('msg')}")
+            not_reproduced.append((pname, f, path))
         else:
             harness_errors.append(f"replay of {path} errored: {text[-1500:]}")
+
+    # A failure that does not reproduce alone usually depended on state that earlier cases of the same
+    # shard left behind inside the library (a cache, a class attribute). Re-run those parts in clean-room
+    # mode - toasty's modules are forgotten before every case - so that any failure found is self-contained.
+    if not_reproduced:
+        redo = [p for p in parts if p.name in set(n for n, _f, _p in not_reproduced) and p.kind == "hypothesis"]
+        env2 = dict(env)
+        env2["VT_CLEANROOM"] = "1"
+        res2 = run_parts(redo, env2, "clean-") if redo else {}
+        found = set()
+        fails2 = [(pn, f) for pn, rs in res2.items() for r in rs for f in r["failures"]]
+        fails2.sort(key=lambda pf: len(canonical(pf[1]["case"])))
+        for pname, f in fails2:
+            bucket = (pname, f.get("clause"))
+            if bucket in seen_buckets:
+                continue
+            path = write_replay(check_id, pname, f, seed, tier)
+            st, text = replay_subprocess(check_id, path)
+            if st == "fail":
+                seen_buckets.add(bucket)
+                found.add(pname)
+                print(f"violation in part {pname} (clean-room re-run): [{f.get('clause')}] {f.get('msg')}")
+                print(f"VIOLATION property={check_id} replay={path}")
+                n_violation_lines += 1
+        for pname, f, path in not_reproduced:
+            if pname not in found:
+                harness_errors.append(f"failure in part {pname} did not reproduce from {path}, also not in a clean-room re-run (non-deterministic harness?): {f.get('msg')}")
 
     for f in open_findings:
         sig = f["sig"]
